@@ -151,7 +151,10 @@ def generate(seed, tier="quick"):
         if erng.random() < 0.5:
             approved = erng.choice([["create", "trim"], ["fix", "trim"], list(CATS), ["create", "fix", "trim"]])
     W.sprinkle_uni(prog, sub(seed, "uni"), 0.12)
-    return {"program": prog, "approved": approved, "driver": driver, "fmt": draw_fmt(sub(seed, "fmt")), "kinds": kinds}
+    start = None
+    if driver == "plugin":
+        start = sub(seed, "startdir").choice([None, None, None, "from_parent", "from_sibling"])
+    return {"program": prog, "approved": approved, "driver": driver, "fmt": draw_fmt(sub(seed, "fmt")), "kinds": kinds, "start": start}
 
 
 exc_signature = sim.exc_signature
@@ -208,7 +211,11 @@ def execute(case, ctx):
     if driver == "plugin":
         files["pyproject.toml"] = sim.pyproject_for(fmt)
     flags = ",".join((["report"] if driver == "plugin" else []) + sorted(approved)) or None
-    new, res = sim.run_session(ctx, driver, files, {"flags": flags, "fmt": fmt})
+    spec = {"flags": flags, "fmt": fmt}
+    if case.get("start"):
+        spec[case["start"]] = True  # pytest is started outside the project directory, which is named on the command line
+        ctx.count("probe_session_started_outside_the_project_directory")
+    new, res = sim.run_session(ctx, driver, files, spec)
     ctx.count("clauses_checked")
     kinds = sorted({s.get("trouble") for f in prog["files"] for s in f["sites"].values() if s.get("trouble")})
     out["abstract"].append(f"{'+'.join(kinds) or 'none'}|{'+'.join(sorted(approved))}|{driver}")
